@@ -197,7 +197,7 @@ MUTANTS = [
     m("C12-counter-frozen", "C12", "loop-cap@cg:loop", CG, "return (x1, k + 1, r1, p1, alpha, beta, gamma1)", "return (x1, k, r1, p1, alpha, beta, gamma1)"),
     m("C12-stop-all", "C12", "stopping-test@cg:cond", CG, "res_meet = xnp.any(rs > tol)", "res_meet = xnp.all(rs > tol)"),
     m("C12-tolerance", "C12", "stopping-test@cg:tolerance", CG, "tol = tol * xnp.norm(r0, axis=-2, keepdims=True) + tol", "tol = tol * xnp.norm(r0, axis=-2, keepdims=True)"),
-    m("C12-scaling-back", "C12", "scaling@cg:scaling", CG, "return state[0] * mult, state[2] * mult, state[1], info", "return state[0], state[2] * mult, state[1], info"),
+    m("C12-scaling-back", "C12", "scale-homogeneity@cg:solution", CG, "return state[0] * mult, state[2] * mult, state[1], info", "return state[0], state[2] * mult, state[1], info"),
     m("C12-axis-dropped", "C12", "column-independence@update_alpha", CG, "denom = xnp.sum(xnp.conj(p) * Ap, axis=-2, keepdims=True)", "denom = xnp.sum(xnp.conj(p) * Ap, keepdims=True)"),
     m("C12-norm-axis", "C12", "column-independence@take_cg_step", CG, "has_converged = xnp.norm(r0, axis=-2, keepdims=True) < eps", "has_converged = xnp.norm(r0, axis=-1, keepdims=True) < eps"),
     m("C12-count-fixed-silent", "C12", "", TQ, "            info['iterations'] += 1\n            return cond_fun(state)\n\n        out = while_loop(newcond, body_fun, init_val)",
